@@ -80,7 +80,11 @@ impl RuntimeState {
 
     pub(super) fn next_deadline(&self) -> Option<Instant> {
         match (self.next_ping, self.ping_timeout) {
-            (Some(next_ping), Some(ping_timeout)) => Some(next_ping.min(ping_timeout)),
+            // No further PINGREQ is sent while one is outstanding, so only its timeout can end
+            // the wait. Waking up for `next_ping` (which may lie before the timeout for
+            // keepalives below twice the round-trip bound) would find nothing to do and, once
+            // that instant has passed, turn the wait into a busy loop until the timeout.
+            (Some(_), Some(ping_timeout)) => Some(ping_timeout),
             (Some(next_ping), None) => Some(next_ping),
             (None, Some(ping_timeout)) => Some(ping_timeout),
             (None, None) => None,
